@@ -19,11 +19,21 @@ Definition spec_add (fs : list form) (lim : Z) (f : form) : list form :=
        if (lim + Z.quot lim 10 <=? Z.of_nat (List.length fs'))%Z
        then skipn (List.length fs' - Z.to_nat lim) fs' else fs'.
 
+(* clearing a range: the entries whose distance from the most recent one lies in start..end go, the
+   others stay in order (a negative end means "to the oldest") *)
+Definition in_range (i s e : Z) : bool := ((s <=? i) && ((e <? 0) || (i <=? e)))%Z.
+Fixpoint drop_range {A} (i : Z) (l : list A) (s e : Z) : list A :=
+  match l with
+  | [] => []
+  | x :: l' => (if in_range i s e then [] else [x]) ++ drop_range (i + 1) l' s e
+  end.
+Definition spec_clear {A} (fs : list A) (s e : Z) : list A := rev (drop_range 0 (rev fs) s e).
+
 Definition spec_step (st : list form * Z) (o : op) : list form * Z :=
   let '(fs, lim) := st in
   match o with
   | OAdd f => (spec_add fs lim f, lim)
-  | OClear => ([], lim)
+  | OClear s e => (spec_clear fs s e, lim)
   | OLimit n => (fs, n)
   | ORestart => (fs, lim)          (* a restart changes nothing *)
   end.
@@ -37,3 +47,39 @@ Definition encode (fs : list form) : list byte := flat_map tab_append fs.
 (* the remembered list before the first and after every operation of a history *)
 Fixpoint spec_states (st : list form * Z) (ops : list op) : list (list form) :=
   fst st :: match ops with [] => [] | o :: ops' => spec_states (spec_step st o) ops' end.
+
+(* ================= Stash ================= *)
+(* forms the stash file can carry, given the reader: no TAB or NL inside a line, the first line not
+   empty, not blank, and the reader accepts the text exactly when the last line has been read
+   (complete, and not complete earlier) *)
+Definition first_nonempty (f : form) : bool := match f with (_ :: _) :: _ => true | _ => false end.
+Definition is_full (r : rres) : bool := match r with RFull => true | _ => false end.
+Definition is_partial (r : rres) : bool := match r with RPartial => true | _ => false end.
+Fixpoint chain (rd : list byte -> rres) (pre suf : form) : bool :=
+  match suf with
+  | [] => false
+  | [l] => is_full (rd (expand (pre ++ [l])))
+  | l :: suf' => is_partial (rd (expand (pre ++ [l]))) && chain rd (pre ++ [l]) suf'
+  end.
+Definition sencodable (rd : list byte -> rres) (f : form) : bool :=
+  forallb line_ok f && first_nonempty f && negb (form_empty f) && chain rd [] f.
+
+(* the remembered stash: blank forms and a repetition of the most recent form are not recorded *)
+Definition sspec_add (fs : list form) (f : form) : list form :=
+  if form_empty f then fs
+  else if match rev fs with l :: _ => form_eqb f l | [] => false end then fs
+  else fs ++ [f].
+Definition sspec_step (fs : list form) (o : sop) : list form :=
+  match o with
+  | SAdd f => sspec_add fs f
+  | SClear s e => spec_clear fs s e
+  | SUse | SRestart => fs          (* loading the stash again changes nothing *)
+  end.
+Definition sspec_run (fs : list form) (ops : list sop) : list form := fold_left sspec_step ops fs.
+Definition sop_encodable (rd : list byte -> rres) (o : sop) : bool :=
+  match o with SAdd f => sencodable rd f || form_empty f | _ => true end.
+Fixpoint sspec_states (fs : list form) (ops : list sop) : list (list form) :=
+  fs :: match ops with [] => [] | o :: ops' => sspec_states (sspec_step fs o) ops' end.
+(* the stash file after a rewrite / with every form appended by Add *)
+Definition chunk (p : bool * form) : list byte := if fst p then expand (snd p) ++ [NL] else tab_append (snd p).
+Definition enc_mixed (l : list (bool * form)) : list byte := flat_map chunk l.
